@@ -25,7 +25,9 @@ import numpy as np
 from . import c13, common
 
 PROP = "C14"
-LEAN_MODULES = ["MiciVerif.Props.C14"]
+# Props/C14S.lean: generated control skeleton of the sequential / worker / parallel functions vs the model's
+LEAN_MODULES = ["MiciVerif.Props.C14", "MiciVerif.Props.C14S"]
+GENERATED = ["sampler_skeleton"]
 LEAN_EXTRA = c13.LEAN_EXTRA
 
 
@@ -290,7 +292,7 @@ def run(ctx: common.Ctx):
         "hypothesis `AdaptLocal` of the theorems",
     ]
     reqs: list = []
-    n_cfg = ctx.n(18, 300)
+    n_cfg = ctx.n(18, 300) * (c13.skeleton_escalation(ctx) if ctx.quick else 1)
     for k in range(n_cfg):
         cfg = gen_cfg14(rng, multi_stage=k % 3 != 0)
         n_chain = len(cfg["inits"])
@@ -429,6 +431,7 @@ LEVEL_TEXT = (
     "Tied to the code by real "
     "runs under n_process 1-4 with per-chain delays whose observed schedules are replayed in the model, with raw "
     "draws recorded."
+    " Source-text tie (Props/C14S): the statement trees of _sample_chains_sequential, _sample_chains_worker and _sample_chains_parallel are re-extracted on every run and proved equal to the trees the model's seqStep / workerRun / stagePar were written against; separate theorems: generators created once per call and passed to every stage and to finalize, sequential mode passes the parent's objects, the worker returns its generator state, the parent writes it back by chain index, outputs sorted by chain index, every chain queued once."
 )
 LEVEL_NOTE = (
     "Partial: real OS schedules are sampled (perturbed by delays), not enumerated; process pools, pickling of "
@@ -440,4 +443,5 @@ LEVEL_NOTE = (
 TECHNIQUE = (
     "Lean 4 theorems (permutation / sorted-list arguments over an executable model of the worker pool) + real "
     "multi-process runs with observed-schedule replay in the model and pairwise output equality"
+    " + AST-extracted control skeleton of the hand-off code proved equal to the model's (decide +kernel)"
 )
